@@ -8,11 +8,15 @@ Dom == [
   op      |-> {"none", "set", "overwrite", "delete-maxage", "delete-expires", "path-scoped", "domain-scoped", "secure", "httponly",
                "two-cookies", "same-name-other-path",
                \* Domain attributes a compliant jar has to refuse or scope: a public suffix, a foreign domain, a parent domain
-               "domain-public-suffix", "domain-foreign", "domain-parent", "samesite", "expires-future", "maxage-zero-then-set"},
+               "domain-public-suffix", "domain-foreign", "domain-parent", "samesite", "expires-future", "maxage-zero-then-set",
+               \* the same name and value as in an earlier response of the session, with other attributes: what a jar does
+               \* with a cookie depends on what it already holds (deleting by re-sending, re-scoping, refreshing)
+               "same-set", "same-delete-maxage", "same-delete-expires", "same-path-a", "same-path-root", "same-refresh"},
   extra   |-> {"none", "one", "two", "same-name-as-jar",
                "two-lines", "three-lines-session-last"} ]      \* the client's cookies spread over several Cookie header lines
+SameOps == {"same-set", "same-delete-maxage", "same-delete-expires", "same-path-a", "same-path-root", "same-refresh"}
 VARIABLE x
 GInit == x = 0
 GNext == x' = x
-ASSUME JsonSerialize(IOEnv.VERIF_OUT, [k \in DOMAIN Dom |-> SetToSeq(Dom[k])])
+ASSUME JsonSerialize(IOEnv.VERIF_OUT, [k \in DOMAIN Dom |-> SetToSeq(Dom[k])] @@ [sameop |-> SetToSeq(SameOps)])
 =============================================================================
